@@ -25,7 +25,7 @@ RULE = (
 ASSUMPTIONS = [
     "vf/ref/isa.py: the 256-entry 65c816 opcode matrix (each opcode byte appears exactly once)",
     "width = explicit suffix, else smallest of 1/2/3 bytes holding the non-negative value",
-    "unjudged: relative-branch mnemonics with a plain operand (C05), pea #v, operands < 0 or >= 2^24 without suffix",
+    "unjudged: relative-branch mnemonics with a plain operand (C05), pea #v, negative operands without suffix; an unsuffixed operand >= 2^24 fits no width and must be rejected",
     "data/c01_supported.json: combinations the repaired tree assembles and the ISA confirms; they must keep assembling",
 ]
 EXHAUSTIVE_WHEN_PARTS = True
@@ -231,6 +231,15 @@ def run_enum(shard: dict, res: Res) -> None:
                     stmt = render(m, shape, "", vtext_of(v), "lower")
                     judge(res, supported, m, shape, "", v, stmt, f"*={origin:#08x}\n{stmt}\n", key_of(m, shape, "", v), True)
                     res.count("origin_cases")
+        # an unsuffixed operand that no width of 1, 2 or 3 bytes holds has no encoding; with .l the value is truncated to 3 bytes
+        for shape, tpl, isa_shape in SHAPES:
+            if isa_shape in (None, "imp"):
+                continue
+            for suffix in ("", "l"):
+                for text, v in (("0x1000000", 0x1000000), ("0x1008000", 0x1008000), ("0xFFFFFF+1", 0x1000000), ("0x7E0000+0x2000000", 0x27E0000), ("0x100000000", 1 << 32)):
+                    stmt = render(m, shape, suffix, text, "lower")
+                    judge(res, supported, m, shape, suffix, v, stmt, f"*=0x008000\n{stmt}\n", None, True)
+                    res.count("wider_than_24_bit_cases")
         # an operand that is a symbol keeps meaning that symbol whatever its name (register letters, size letters)
         for name in REGISTER_LIKE_NAMES:
             for shape, tpl, isa_shape in SHAPES:
